@@ -283,6 +283,20 @@ pub(crate) struct DirectoryInfo {
     pub(crate) cluster: ClusterId,
 }
 
+#[cfg(embedded_sdmmc_verif)]
+impl DirEntry {
+    /// Verification hook (only with `--cfg embedded_sdmmc_verif`): forwards to
+    /// the crate-private serialiser so that the on-disk encoding can be
+    /// checked against the FAT layout.
+    pub fn verif_serialize(&self, fat32: bool) -> [u8; 32] {
+        self.serialize(if fat32 {
+            FatType::Fat32
+        } else {
+            FatType::Fat16
+        })
+    }
+}
+
 impl DirEntry {
     pub(crate) fn serialize(&self, fat_type: FatType) -> [u8; OnDiskDirEntry::LEN] {
         let mut data = [0u8; OnDiskDirEntry::LEN];
